@@ -243,11 +243,11 @@ NROWS = {"q": 5, "t": 8}
       stubs=[], assumes=["a class the reference schema does not know gets oracles 1-3 only",
                          "where the tree's octets equal the reference octets the decoders are run on the reference's "
                          "buffer (same octets, flat representation)"])
-def cls_rt(d, group, tier):
+def cls_rt(d, group, tier, maxlen=None):
     K = d.pick(GROUPS[tier][group], "cls")
     part = d.pick(["shapes", "leaves"], "part")
     thorough = tier == "t"
-    g = G.Gen(d, thorough, 3 if thorough else 1, HINTS, 16 if thorough else 8)
+    g = G.Gen(d, thorough, maxlen if maxlen is not None else (3 if thorough else 1), HINTS, 16 if thorough else 8)
     d.note(cls=K.__name__, part=part)
     if part == "shapes":
         M = g.top(K, "all")
@@ -600,6 +600,23 @@ RGROUPS = {"q": make_groups(REFUSERS, estimate_refuse, "q", 30, SOLO_REFUSE),
            "t": make_groups(REFUSERS, estimate_refuse, "t", 30, SOLO_REFUSE)}
 
 
+def _has_list_of_sequences(K, seen=None):
+    """a sequence class one of whose elements is a list of constructed items"""
+    if not issubclass(K, C.Sequence):
+        return False
+    for e in getattr(K, "sequenceElements", []):
+        kl = e.klass
+        if (kl in C._sequence_of_classes or kl in C._list_of_classes) and not issubclass(kl.subtype, (P.Atomic, C.AnyAtomic)):
+            return True
+    return False
+
+
+# quick tier, lists of TWO items: the service PDUs (and their item classes) that carry a list of constructed items -
+# what follows an item (the next item) decides how the item's trailing optional parts are decoded
+GROUPS["q2"] = make_groups([K for K in CLASSES if _has_list_of_sequences(K)], estimate, "t", 60, SOLO_RT)
+NROWS["q2"] = NROWS["q"]
+
+
 def _span(grp):
     return grp[0].__name__ if len(grp) == 1 else grp[0].__name__ + ".." + grp[-1].__name__
 
@@ -612,6 +629,10 @@ def instances(tier):
     for i, grp in enumerate(GROUPS[t]):
         out.append(Inst(cls_rt, dict(group=i, tier=t), budget=240 if q else 1500, path_timeout=pt,
                         label="%d:%s" % (i, _span(grp))))
+    if q:
+        for i, grp in enumerate(GROUPS["q2"]):
+            out.append(Inst(cls_rt, dict(group=i, tier="q2", maxlen=2), budget=240, path_timeout=pt,
+                            label="two-item lists %d:%s" % (i, _span(grp))))
     for i, grp in enumerate(RGROUPS[t]):
         out.append(Inst(cls_refuse, dict(group=i, tier=t), budget=120 if q else 600, path_timeout=pt,
                         label="%d:%s" % (i, _span(grp))))
